@@ -334,6 +334,29 @@ def prefix_rules(C, P):
                     'a path prefix is stripped and the remainder used for re-keying without the segment-boundary test (renaming /pkg1 would also re-key /pkg10)', b.where(pos),
                     sample={'fn': b.short, 'idiom': 'strip_prefix(old) -> is_empty() || starts_with(\'/\') before re-key'})
     C.floor('C04-DEV-prefix', n, 6)
+    # the same guard for str::starts_with between two PATHS (not a literal): in every function that maintains one of the two
+    # indexes (and in their closures) a `path.starts_with(other_path)` decides "is nested below" only together with a boundary test
+    maint = [b for b in P.bodies.values() if b.crate == 'autosar_data' and b.kind != 'Closure' and (any(E.is_mutating(o) for o in E.ident_ops(b) + E.reforig_ops(b)))]
+    nsw = 0
+    for b in maint:
+        for x in P.with_closures(b):
+            for pos, t in x.iter_calls():
+                if call_matches(t, r'str>::starts_with$') and len(t['args']) > 1:
+                    a = t['args'][1]
+                    if const_val(a) is not None:
+                        continue
+                    # a non-constant pattern: &str / &String / char variable
+                    ty = x.local_ty(a['l']) if is_local_op(a) else ''
+                    if 'char' == (ty or '').strip('&'):
+                        continue
+                    from flow import origins as _or
+                    lit = any(o[0] == 'const' for o in _or(x, a)) if is_local_op(a) else False
+                    if lit:
+                        continue
+                    nsw += 1
+                    C.fail('C04-DEV-prefix', '%s|starts_with-between-paths' % b.short, 'a path is tested with starts_with(<another path>) in %s: without the segment-boundary test /Pkg/Sys10 counts as nested below /Pkg/Sys1, so its index entry is skipped / re-keyed wrongly' % b.short, x.where(pos))
+    if not nsw:
+        C.ok('C04-DEV-prefix', 'no-starts_with-between-paths', '%d index-maintaining functions scanned' % len(maint), sample={'functions_scanned': len(maint), 'starts_with_between_paths': 0})
 
 
 def must_identifiable(C, P):
